@@ -35,11 +35,11 @@ from .c12 import StubBIO
 NONTRIVIAL_RULE = "the cancellation landed while the close was still running, or a wrapped close raised"
 STUBS = [
     "DetLoop; MemStreamTransport (aclose() marks closed at once, then suspends 1-2 iterations, then may raise the scripted error)",
-    "SilentSSL: stands for ssl.SSLObject whose peer never answers (unwrap()/do_handshake() raise SSLWantReadError after writing one record); StubContext.wrap_bio returns it",
+    "SilentSSL: stands for ssl.SSLObject whose peer never answers (unwrap()/do_handshake() raise SSLWantReadError after writing one record); StubContext.wrap_bio returns it; AnsweredSSL: unwrap() completes at once (close_notify already received)",
     "FakeAsyncioTransport for the asyncio adapter",
 ]
 ASSUMPTIONS = ["a wrapped transport counts as released when its aclose() has been invoked (the in-memory transport is closed from that moment)"]
-BOUNDS = {"quick": "one cancellation at iteration k in 1..8 (and two cancellations k < k2 in 1..6), faults per wrapped transport out of {none, OSError, RuntimeError}, close suspensions 1-2; concurrent sender stalled for 1/3/40 iterations (close-busy); connection attempt taking 1-3 iterations, close starting 0-3 iterations into it (aclient-connecting); TLS wrap: silent peer or local handshake failure, wrapped send failing / stalling 0 or 3 iterations", "thorough": "k up to 12 / 10"}
+BOUNDS = {"quick": "one cancellation at iteration k in 1..8 (and two cancellations k < k2 in 1..6), faults per wrapped transport out of {none, OSError, RuntimeError}, close suspensions 1-2; concurrent sender stalled for 1/3/40 iterations (close-busy); connection attempt taking 1-3 iterations, close starting 0-3 iterations into it (aclient-connecting); TLS aclose: silent or already-answered peer x shutdown timeout 5 / 0 (already expired); TLS wrap: silent peer or local handshake failure, wrapped send failing / stalling 0 or 3 iterations", "thorough": "k up to 12 / 10"}
 OUTSIDE = "real sockets, real OpenSSL shutdown, trio"
 
 FAULTS = [lambda: None, lambda: OSError(104, "reset"), lambda: RuntimeError("boom")]  # fresh exception objects per path
@@ -77,6 +77,14 @@ class SilentSSL:
         return None
 
     def version(self):
+        return None
+
+
+class AnsweredSSL(SilentSSL):
+    """the peer's close_notify has already been received: unwrap() emits our close_notify and completes without wanting to read"""
+
+    def unwrap(self):
+        self.wbio.write(b"U")
         return None
 
 
@@ -154,7 +162,11 @@ def close(path: str, Kmax: int = 8, susp: int = 1, two_cancels: bool = False, bu
                 a = mem(S.choice(3, "fault"))
                 a.send_error = [None, OSError(32, "pipe"), RuntimeError("boom")][S.choice(3, "send_fault")]
                 rbio, wbio = StubBIO(), StubBIO()
-                obj = AsyncTLSStreamTransport(_transport=a, _standard_compatible=True, _shutdown_timeout=5.0, _ssl_object=SilentSSL(wbio), _read_bio=rbio, _write_bio=wbio)
+                # the closing handshake either never completes (silent peer) or completes at once (close_notify already received);
+                # the shutdown timeout is generous or already expired when the close starts (shutdown_timeout=0)
+                answered = S.bool("peer_answered")
+                sh_timeout = S.pick([5.0, 0.0], "shutdown_timeout")
+                obj = AsyncTLSStreamTransport(_transport=a, _standard_compatible=True, _shutdown_timeout=sh_timeout, _ssl_object=(AnsweredSSL if answered else SilentSSL)(wbio), _read_bio=rbio, _write_bio=wbio)
                 expire = S.bool("shutdown_timeout_first")
                 op = obj.aclose
                 outer_closing = obj.is_closing
